@@ -61,7 +61,7 @@ impl Record {
             stripe_size: 1048576,
             mirror_count: 2,
             pools: vec!["flash".into()],
-            xattrs: vec![("user.tag".into(), "blue".into())],
+            xattrs: vec![("user.tag".into(), "blue".into()), ("tag".into(), "green".into())],
             empty: false,
             executable: false,
             readable: true,
